@@ -21,7 +21,9 @@ TOOLS = ["reader-select", "reader-iterate", "taste", "colander", "combine", "che
 RULE = ("case = pooled entry point in {reader selections, level iteration, taste, colander, combine, chef, mandoline "
         "2D/3D (return/array/plotfile), pestle, whip, chk2plt, and a Cantera cook preceded in the same process by "
         "other parallel cooks under FORK pools with the modelled pathos cache} on a generated input; the reference execution is the "
-        "serial mode where one exists (chef, mandoline) and the FIFO one-worker schedule otherwise; variants: for each "
+        "serial mode where one exists (chef, mandoline, reader selections: one box at a time by integer index) and "
+        "the FIFO one-worker schedule otherwise; a quarter of the reader cases run under FORK pools after an earlier "
+        "parallel read of a same-named plotfile in another working directory; variants: for each "
         "pool call of the run in turn and each W in {1,2,n,16}, if the call has <= 4 dispatch units ALL feasible "
         "completion orders (deduplicated) x {lazy, eager} delivery for imap calls while the other calls stay FIFO "
         "(capped per case in the quick tier, the cap is reported), plus drawn fully random schedules (random W, order, "
@@ -100,26 +102,58 @@ class ReaderT(tools.ToolCase):
                 self.bdesc = "slice all"
                 break
         self.use_iter = (not self.iterate) and bool(src.draw("use_iter", 0, 1))
-        self.opts.update(fsel=self.fdesc, lv=self.lv, bsel=self.bdesc, use_iter=self.use_iter)
+        # history: an earlier parallel read of a same-named plotfile in ANOTHER run directory, in the same
+        # process, under FORK pools (real workers keep the directory they were forked in); the read under
+        # test then uses the relative name from the second directory
+        self.history = bool(src.flag("history", 4))
+        self.twin = None
+        if self.history:
+            sub = RandomSource(src.draw("history.seed", 0, 9999))
+            self.twin = m.copy_meta()
+            world.gen_layout(sub, self.twin, tag="t")
+            world.fill_random(self.twin, sub.draw("t.data", 0, 999999))
+        self.serial = False
+        self.opts.update(fsel=self.fdesc, lv=self.lv, bsel=self.bdesc, use_iter=self.use_iter, history=self.history)
 
     def materialise(self, root):
         p = os.path.join(root, "data", "plt00100")
         world.write_plotfile(self.m, p)
+        if self.history:
+            world.write_plotfile(self.twin, os.path.join(root, "earlier", "plt00100"))
         return [p]
 
     def call(self, ctx, root):
         from amr_kitchen import PlotfileCooker
         p = os.path.join(root, "data", "plt00100")
         self.out_abs = None
+        cwd = self.cwd(root)
+        old_fork = ctx.fork_mode
+        if self.history:
+            ctx.fork_mode = True
+            p, cwd = "plt00100", os.path.join(root, "data")
+            if not self.serial:
+                def earlier():
+                    pck = PlotfileCooker("plt00100")
+                    return (pck[self.fsel][self.lv][:], list(pck[self.fsel][self.lv]))
+                run_tool(ctx, earlier, cwd=os.path.join(root, "earlier"))
+                ctx.pool_seq = 0
 
         def go():
             pck = PlotfileCooker(p)
             if self.iterate:
                 return list(pck[self.fsel][self.lv])
+            if self.serial:
+                # the reader's serial mode: one box at a time by integer index, no pool involved
+                nb = len(self.m.boxes[self.lv])
+                which = np.arange(nb)[self.bsel if isinstance(self.bsel, slice) else np.array(self.bsel)]
+                return [pck[self.fsel][self.lv][int(i)] for i in which]
             if self.use_iter:
                 return list(pck[self.fsel][self.lv].iter(self.bsel))
             return pck[self.fsel][self.lv][self.bsel]
-        return run_tool(ctx, go, cwd=self.cwd(root), label=f"{self.name} {self.fdesc} L{self.lv} {self.bdesc}")
+        try:
+            return run_tool(ctx, go, cwd=cwd, label=f"{self.name} {self.fdesc} L{self.lv} {self.bdesc}")
+        finally:
+            ctx.fork_mode = old_fork
 
 
 class TasteT(tools.ToolCase):
@@ -263,6 +297,9 @@ def execute(ctx, tool, k, pool_src, serial=None):
     ctx.pool_src = pool_src
     ctx.pool_seq = 0
     ctx.reset_pools()
+    if core.FRESH_PROCESS_HOOK is not None:
+        # every execution stands for a run of its own: package state is what a fresh interpreter has
+        core.FRESH_PROCESS_HOOK()
     nsig0 = len(ctx.describe["schedules"])
     old_serial = getattr(tool, "serial", None)
     if serial is not None:
@@ -356,7 +393,7 @@ def run_case(ctx):
         if tool.opts.get("out") == "default":
             tool.opts["out"] = "abs"
     sig = {"property": ID, "tool": name}
-    has_serial = name in ("chef", "mandoline", "chef-history") and not tool.opts.get("cli")
+    has_serial = (name in ("chef", "mandoline", "chef-history") and not tool.opts.get("cli")) or name == "reader-select"
     # reference: serial mode where it exists, else FIFO with one worker
     ref = execute(ctx, tool, 0, Scripted({}), serial=True if has_serial else None)
     pilot = ref
@@ -367,6 +404,8 @@ def run_case(ctx):
     cap = 40 if ctx.tier == "quick" else 400
     if name == "chef-history":
         cap = 4 if ctx.tier == "quick" else 24       # three Cantera cooks with real forks per variant
+    if getattr(tool, "history", False):
+        cap = 6 if ctx.tier == "quick" else 40       # real forks
     if len(variants) > cap:
         import random
         rnd = random.Random(src.draw("variants.subset", 0, 9999))
